@@ -8,6 +8,7 @@ import (
 	"github.com/biscuit-auth/biscuit-go/v2/parser"
 
 	"verif/internal/gram"
+	rx "verif/internal/refexpr"
 	"verif/internal/sup"
 )
 
@@ -22,8 +23,17 @@ func c14TreeSpace() *sup.Space {
 			texts = append(texts, t)
 		}
 	}
-	for _, lab := range []string{"param-in-expression"} {
-		_ = lab
+	// parameters inside expressions and inside a set (the frames only carry them in predicates)
+	for _, e := range []*gram.Node{
+		gram.Bin(rx.Equal, gram.Lf(gram.LVarX), gram.Lf(gram.LParam)),
+		gram.Bin(rx.LessThan, gram.Bin(rx.Add, gram.Lf(gram.LParam), gram.Lf(gram.LInt)), gram.Lf(gram.LVarX)),
+		gram.Bin(rx.Contains, gram.Lf(gram.Leaf{Toks: []string{"[", "1", ",", "{p}", "]"}, Val: rx.SetOf(rx.Int(1), rx.Int(42)), Param: "p"}), gram.Lf(gram.LVarX)),
+	} {
+		for _, t := range c14ExprFrames("param-in-expression", gram.Minimal(e)) {
+			if t.kind == "rule" || t.kind == "check" || t.kind == "policy" {
+				texts = append(texts, t)
+			}
+		}
 	}
 	bindings := []biscuit.Term{biscuit.Integer(42), biscuit.Integer(7), biscuit.String("other"), nil}
 	names := []string{"42", "7", `"other"`, "unbound"}
